@@ -138,7 +138,8 @@ WATCH = {
             ("src/atom_table.rs", "equivalent"), ("src/atom_table.rs", "hash", r"impl Hash for AtomHashByStr"),
             ("build/static_string_indexing.rs", "static_string_index"), ("build/static_string_indexing.rs", "index_static_strings"), ("build/static_string_indexing.rs", "visit_macro")],
     "C03": [("src/arithmetic.rs", "compile_is"), ("src/codegen.rs", "compile_inlined"), ("src/codegen.rs", "compile_arith_expr"), ("src/codegen.rs", "compile_is_call"),
-            ("src/debray_allocator.rs", "mark_non_var"), ("src/codegen.rs", "mark_non_callable")],
+            ("src/debray_allocator.rs", "mark_non_var"), ("src/codegen.rs", "mark_non_callable"),
+            ("src/machine/dispatch.rs", "re:.*_instr"), ("src/machine/arithmetic_ops.rs", "get_number"), ("src/machine/arithmetic_ops.rs", "get_rational")],
     "C33": [("src/machine/heap.rs", "sized_iter_to_heap_list"), ("src/machine/heap.rs", "allocate_pstr"), ("src/machine/heap.rs", "allocate_cstr"), ("src/machine/heap.rs", "write_with"),
             ("src/machine/heap.rs", "functor_writer", r"impl Heap")],
 }
